@@ -1,4 +1,5 @@
 import Capella.Model.Reqif
+import Std.Data.String.ToInt
 namespace Capella.Reqif
 open List
 
@@ -64,6 +65,23 @@ theorem mem_dedup {α : Type} [DecidableEq α] {l : List α} {a : α} : a ∈ de
 
 theorem nodup_dedup {α : Type} [DecidableEq α] (l : List α) : (dedup l).Nodup := nodup_dedupBy id l
 
+/-! ### `sortBy` only reorders -/
+
+theorem insertBy_perm {α : Type} (le : α → α → Bool) (a : α) : ∀ l : List α, insertBy le a l ~ a :: l
+  | [] => Perm.refl _
+  | b :: l => by
+    simp only [insertBy]
+    split
+    · exact Perm.refl _
+    · exact ((insertBy_perm le a l).cons b).trans (Perm.swap a b l)
+
+theorem sortBy_perm {α : Type} (le : α → α → Bool) : ∀ l : List α, sortBy le l ~ l
+  | [] => Perm.refl _
+  | a :: l => (insertBy_perm le a _).trans ((sortBy_perm le l).cons a)
+
+theorem mem_sortBy {α : Type} {le : α → α → Bool} {l : List α} {a : α} : a ∈ sortBy le l ↔ a ∈ l :=
+  (sortBy_perm le l).mem_iff
+
 /-! ### the three traversals of the exporter are the module's depth-first order -/
 
 mutual
@@ -107,11 +125,11 @@ theorem collected_eq_dfs (m : Module) (h : (m.dfs.map (·.uuid)).Nodup) : collec
 
 theorem mem_datatypes {m : Module} {d : DatatypeEl} :
     d ∈ datatypes m ↔ d ∈ stdDatatypes ∨ d ∈ customDatatypes m := by
-  simp [datatypes]
+  simp [datatypes, mem_sortBy]
 
 theorem mem_specTypes {m : Module} {t : SpecTypeEl} :
     t ∈ specTypes m ↔ ∃ rt ∈ reqTypes m, t = specObjectType m rt := by
-  simp [specTypes, eq_comm]
+  simp [specTypes, mem_sortBy, eq_comm]
 
 theorem stdDatatype_mem_defs (x : Str → Option Str) (m : Module) (n : Str)
     (h : ∃ d ∈ stdDatatypes, d.key = .std n) : Ident.stdDatatype n ∈ (doc x m).defs := by
@@ -384,8 +402,8 @@ theorem defs_perm (x : Str → Option Str) (m : Module) : (doc x m).defs ~ defsU
   rw [doc_specObjects, doc_children]
   simp only [doc, specification, List.map_map]
   refine Perm.cons _ (Perm.append (Perm.append (Perm.append (Perm.append ?_ ?_) (Perm.refl _)) ?_) ?_)
-  · exact Perm.flatMap_right _ (mergeSort_perm _ _)
-  · exact Perm.flatMap_right _ (mergeSort_perm _ _)
+  · exact Perm.flatMap_right _ (sortBy_perm _ _)
+  · exact Perm.flatMap_right _ (sortBy_perm _ _)
   · exact Perm.of_eq (by simp [specObject, Function.comp_def])
   · exact Perm.of_eq (by simp [hierEl, Function.comp_def])
 
@@ -703,6 +721,140 @@ theorem defs_nodup (x : Str → Option Str) (m : Module) (hI : Identity m) : (do
     exact nodup_map_of_inj hI.objs (fun _ _ _ _ e => by simpa using e)
   · rw [defsU_filter_notObj]
     exact nonObjIds_nodup m hI
+
+
+/-! ### "contained in the module, directly or in nested folders" -/
+
+/-- `f.Contains r`: `r` is one of the folder's requirements or contained in one of its sub-folders -/
+inductive Folder.Contains : Folder → Req → Prop
+  | direct {reqs : List Req} {fs : List Folder} {r : Req} : r ∈ reqs → Folder.Contains (.mk reqs fs) r
+  | nested {reqs : List Req} {fs : List Folder} {f : Folder} {r : Req} :
+      f ∈ fs → Folder.Contains f r → Folder.Contains (.mk reqs fs) r
+
+def Module.Contains (m : Module) (r : Req) : Prop :=
+  r ∈ m.reqs ∨ ∃ f ∈ m.folders, f.Contains r
+
+theorem mem_dfsL_of_mem {fs : List Folder} {f : Folder} {r : Req} (hf : f ∈ fs) (hr : r ∈ f.dfs) :
+    r ∈ dfsL fs := by
+  induction fs with
+  | nil => cases hf
+  | cons g gs ih =>
+    simp only [dfsL, List.mem_append]
+    rcases List.mem_cons.mp hf with rfl | h
+    · exact Or.inl hr
+    · exact Or.inr (ih h)
+
+theorem Folder.mem_dfs_of_contains {f : Folder} {r : Req} (h : f.Contains r) : r ∈ f.dfs := by
+  induction h with
+  | direct h => simp [Folder.dfs, h]
+  | nested hf _ ih =>
+    simp only [Folder.dfs, List.mem_append]
+    exact Or.inr (mem_dfsL_of_mem hf ih)
+
+mutual
+theorem Folder.contains_of_mem_dfs : ∀ (f : Folder) (r : Req), r ∈ f.dfs → f.Contains r
+  | .mk reqs fs, r, h => by
+    simp only [Folder.dfs, List.mem_append] at h
+    rcases h with h | h
+    · exact .direct h
+    · obtain ⟨f, hf, hc⟩ := contains_of_mem_dfsL fs r h
+      exact .nested hf hc
+theorem contains_of_mem_dfsL : ∀ (fs : List Folder) (r : Req), r ∈ dfsL fs → ∃ f ∈ fs, f.Contains r
+  | [], _, h => by simp [dfsL] at h
+  | g :: gs, r, h => by
+    simp only [dfsL, List.mem_append] at h
+    rcases h with h | h
+    · exact ⟨g, List.mem_cons_self, Folder.contains_of_mem_dfs g r h⟩
+    · obtain ⟨f, hf, hc⟩ := contains_of_mem_dfsL gs r h
+      exact ⟨f, List.mem_cons_of_mem _ hf, hc⟩
+end
+
+theorem Module.mem_dfs_iff (m : Module) (r : Req) : r ∈ m.dfs ↔ m.Contains r := by
+  simp only [Module.dfs, Module.Contains, List.mem_append]
+  constructor
+  · rintro (h | h)
+    · exact Or.inl h
+    · exact Or.inr (contains_of_mem_dfsL _ _ h)
+  · rintro (h | ⟨f, hf, hc⟩)
+    · exact Or.inl h
+    · exact Or.inr (mem_dfsL_of_mem hf (Folder.mem_dfs_of_contains hc))
+
+/-! ### values can be read back -/
+
+/-- reading an `ATTRIBUTE-VALUE-<kind>` back (what a ReqIF consumer sees) -/
+def Value.decode (k : Kind) (tv : Option Str) (refs : List Str) : Option Value :=
+  match k, tv with
+  | .boolean, some s => if s = "true".toList then some (.bool true) else if s = "false".toList then some (.bool false) else none
+  | .integer, some s => (String.ofList s).toInt?.map .int
+  | .string, some s => some (.string s)
+  | .date, some s => some (.date (some s))
+  | .real, some s => if s = "Infinity".toList then some (.real .posInf)
+      else if s = "-Infinity".toList then some (.real .negInf) else some (.real (.fin s))
+  | .enumeration, none => some (.enum refs)
+  | _, _ => none
+
+/-- values whose export is not a placeholder: a date is present; `str(float)` is not an infinity literal -/
+def Value.Proper : Value → Prop
+  | .date none => False
+  | .real (.fin s) => s ≠ "Infinity".toList ∧ s ≠ "-Infinity".toList
+  | _ => True
+
+/-- the value with the (case-insensitive) enumeration uuids upper-cased, as identifiers are -/
+def Value.upper : Value → Value
+  | .enum vs => .enum (vs.map up)
+  | v => v
+
+theorem Value.decode_render (v : Value) (h : v.Proper) :
+    Value.decode v.kind v.render v.enumRefs = some v.upper := by
+  cases v with
+  | bool b => cases b <;> simp [Value.kind, Value.render, Value.decode, Value.upper]
+  | date d =>
+    cases d with
+    | none => exact absurd h (by simp [Value.Proper])
+    | some s => simp [Value.kind, Value.render, Value.decode, Value.upper]
+  | int n =>
+    simp only [Value.kind, Value.render, Value.decode, Value.upper, String.ofList_toList, Int.toInt?_repr,
+      Option.map_some]
+  | real r =>
+    cases r with
+    | posInf => simp [Value.kind, Value.render, Value.decode, Value.upper]
+    | negInf => simp [Value.kind, Value.render, Value.decode, Value.upper]
+    | fin s =>
+      simp only [Value.kind, Value.render, Value.decode, Value.upper, if_neg h.1, if_neg h.2]
+  | string s => simp [Value.kind, Value.render, Value.decode, Value.upper]
+  | «enum» vs => simp [Value.kind, Value.render, Value.decode, Value.upper, Value.enumRefs]
+
+/-! ### when the exporter raises -/
+
+theorem export_ok (x : Str → Option Str) (m : Module) (hx : (x emptyDiv).isSome = true)
+    (hdiv : ∀ s, (x (wrapDiv s)).isSome = true)
+    (hE : hasEnumWithoutDef m = false) : «export» x m = .ok (doc x m) := by
+  have h1 : ∀ s, (toXhtml x s).isSome = true := by
+    intro s
+    unfold toXhtml
+    cases x s <;> simp [hx]
+  have : errors x m = [] := by
+    simp only [errors, hE, Bool.false_eq_true, if_false, List.nil_append, List.append_eq_nil_iff]
+    constructor
+    · rw [if_neg]
+      simp only [List.any_eq_true, not_exists, not_and]
+      intro r _ v hv
+      simp only [stdValues, List.mem_map] at hv
+      obtain ⟨s, _, rfl⟩ := hv
+      by_cases hs : s.2.1 = Kind.string
+      · simp [hs]
+      · have := h1 (htmlSource s.2.2 (s.2.2.get r))
+        simp [hs, Option.isSome_iff_ne_none.mp this]
+    · rw [if_neg]
+      simp only [specification, List.any_eq_true, not_exists, not_and, List.mem_map]
+      rintro v ⟨s, _, rfl⟩
+      have := hdiv (escape m.longName)
+      simp [Option.isSome_iff_ne_none.mp this]
+  simp [«export», this]
+
+theorem export_assertion (x : Str → Option Str) (m : Module) (hE : hasEnumWithoutDef m = true) :
+    «export» x m = .error .assertion := by
+  simp [«export», errors, hE]
 
 
 end Capella.Reqif
